@@ -144,10 +144,14 @@ CHECKS["C03"] = dict(
                "interleaving of the section goroutines, two consecutive uses of a tree (Put+Get and Reset) with stragglers of the "
                "first use alive, two users on one / two trees: exactly one result, equal to the recursive definition, tree clean at "
                "hand-over. Generators (TLC): every byte length of 2/4/8-segment trees x split classes x header classes with a second "
-               "use after Reset or Put+Get, API edges and multi-hasher walks, boundary-dense lengths on the production pool; all run "
-               "concurrently (48 workers, GOMAXPROCS by seed); every Hash judged",
+               "use after Reset or Put+Get, API edges and multi-hasher walks, boundary-dense lengths on the production pool, all run "
+               "concurrently (48 workers, GOMAXPROCS by seed); plus forced schedules: behaviours of BMTSched.tla (one per choice of which "
+               "arrival toggles first at every inner node x eager/lazy start x order) replayed through the gates of pkg/bmt/verif_gate.go "
+               "for 2/4 sections (8 in thorough); every Hash judged",
     level_note="trusted: TLC, golang.org/x/crypto/sha3 (used by both sides), the driver's reference evaluator (internal/bmtref), JSON "
-               "transport. Goroutine interleavings of the real code are sampled (free scheduling), exhaustive only in the model. "
+               "transport, the gate hook (pkg/bmt/verif_gate.go + six one-line calls in bmt.go, build tag verif). Goroutine interleavings of "
+               "the real code: free scheduling is sampled; forced schedules enumerate toggle orders at gate granularity (steps between two "
+               "gates run sequentially), the fine-grained interleavings are exhaustive only in the model. "
                "Abandoning a hasher (Write without Hash, then Put/Reset) and data beyond the capacity are outside the statement and not generated",
     design=[
         dict(spec="MCBMT.tla", cfg="MCBMT_S4.cfg", cfg_thorough="MCBMT_S4_thorough.cfg", workers=4, timeout=600),
@@ -176,12 +180,13 @@ CHECKS["C03"] = dict(
     judge=dict(spec="BMTTrace.tla", cfg="BMTTrace.cfg"),
     corrupt=_bmt_corrupt,
     driver_timeout=1500,
-    nontrivial=lambda s: any(o["op"] == "hash" for o in s["ops"]),
+    nontrivial=lambda s: any(o["op"] in ("hash", "hashstart") for o in s["ops"]),
     rule="TLC-generated API histories (get/hdr/write/hash/hreset/put): plans = every byte length 0..capacity of 2-, 4- and 8-segment "
          "trees (boundary-dense lengths for 128 segments and for the production pool) x up to 26 split classes x 4 header classes, each "
          "followed by a second use of the same tree after Reset or Put+Get; edges = one shortest history per (state, operation) edge "
-         "of the 4-segment API state graph; walks = -simulate over 3 hashers of a 2-tree pool; distinct = distinct (parameters, "
-         "operation list); non-trivial = contains a Hash. quick samples each family by seed",
+         "of the 4-segment API state graph; walks = -simulate over 3 hashers of a 2-tree pool; forced = one behaviour of BMTSched.tla per "
+         "(first-arrival choice at every inner node, eager/lazy, ascending/descending, length, reuse mode), de-duplicated; "
+         "distinct = distinct (parameters, operation list); non-trivial = contains a Hash. quick samples each family by seed",
     exhaustive=dict(quick=False, thorough=False),
     assumptions=["keccak256 is collision-free on the inputs used (a wrong tree shape changes the digest)",
                  "data bytes are seeded random (never all zero), so padding errors are visible",
